@@ -580,6 +580,38 @@ func (c *FuncCtx) specBuiltin(st *State, name string, x *ast.CallExpr) ([]*Val, 
 		st.guard = g0
 		st.bound = saved
 		return b(tTrue), true
+	case "iterlen", "iterelem":
+		// the ghost sequence an iterator method walks: iterlen(Group.eachGroup, g),
+		// iterelem(Group.eachGroup, g, k, j) = j-th closure parameter of step k
+		key := traceNameOf(x.Args[0])
+		recv := c.eval(st, x.Args[1])
+		fd, ok := c.eng.funcs[key]
+		if !ok {
+			limitf("%s: no iterator method %s", name, key)
+		}
+		sig := c.eng.info.Defs[fd.Name].(*types.Func).Type().(*types.Signature)
+		cb, ok := under(sig.Params().At(0).Type()).(*types.Signature)
+		if !ok {
+			limitf("%s: %s does not take a callback", name, key)
+		}
+		id := strings.ReplaceAll(key, ".", "_")
+		lenUF := "seqLen_" + id
+		c.eng.declareUF(lenUF, fmt.Sprintf("(declare-fun %s (Int) Int)", lenUF))
+		if name == "iterlen" {
+			r := &Val{T: tInt, S: app(lenUF, recv.S), Sort: "Int"}
+			st.assume(app("<=", "0", r.S))
+			return []*Val{r}, true
+		}
+		k := c.eval(st, x.Args[2])
+		jv := c.eval(st, x.Args[3])
+		j, okj := isIntLit(jv.S)
+		if !okj || int(j) >= cb.Params().Len() {
+			limitf("iterelem: bad parameter position")
+		}
+		pt := cb.Params().At(int(j)).Type()
+		uf := fmt.Sprintf("seqOf_%s_%d", id, j)
+		c.eng.declareUF(uf, fmt.Sprintf("(declare-fun %s (Int) (Array Int %s))", uf, c.eng.sortOf(pt)))
+		return []*Val{c.val(mkSel(app(uf, recv.S), k.S), pt)}, true
 	case "nrunes":
 		v := c.eval(st, x.Args[0])
 		c.eng.declareUF("nrunes", "(declare-fun nrunes (String) Int)")
